@@ -768,6 +768,114 @@ b("benign-comments-and-blank-lines", "comments and blank lines added, lines shif
   (AUG, "use std::marker::PhantomData;", "// shifted\n\n\nuse std::marker::PhantomData;", 1))
 
 
+b("benign-release-by-assignment", "done-sender released by assigning None instead of take()",
+  (FG, """        let fns_remaining = graph_structure.node_count();
+        let mut fn_done_tx = Some(fn_done_tx);
+        if fns_remaining == 0 {
+            fn_done_tx.take();
+        }
+        let fold_stream_state = FoldStreamState {
+            graph,
+            fns_remaining,
+            fn_done_tx,
+            seed,
+            fn_fold,
+        };""", """        let fns_remaining = graph_structure.node_count();
+        let mut fn_done_tx = Some(fn_done_tx);
+        if fns_remaining == 0 {
+            fn_done_tx = None;
+        }
+        let fold_stream_state = FoldStreamState {
+            graph,
+            fns_remaining,
+            fn_done_tx,
+            seed,
+            fn_fold,
+        };""", 1))
+b("benign-loop-match-drain", "done receiver drained with loop/match/break instead of while let",
+  (FG, """            while let Poll::Ready(Some(fn_id)) = fn_done_rx.poll_recv(context) {
+                graph_structure""", """            loop {
+                let fn_id = match fn_done_rx.poll_recv(context) {
+                    Poll::Ready(Some(fn_id)) => fn_id,
+                    Poll::Ready(None) | Poll::Pending => break,
+                };
+                graph_structure""", 1))
+b("benign-conflict-with-contains", "conflict predicate written with contains() and clauses reordered",
+  (AUG, """                        let conflict = fn_borrows
+                            .iter()
+                            .any(|left| fn_next_borrow_muts.iter().any(|right| left == right))
+                            || fn_borrow_muts
+                                .iter()
+                                .any(|left| fn_next_borrows.iter().any(|right| left == right))
+                            || fn_borrow_muts
+                                .iter()
+                                .any(|left| fn_next_borrow_muts.iter().any(|right| left == right));""", """                        let conflict = fn_borrow_muts
+                            .iter()
+                            .any(|left| fn_next_borrow_muts.contains(left))
+                            || fn_borrow_muts.iter().any(|left| fn_next_borrows.contains(left))
+                            || fn_borrows
+                                .iter()
+                                .any(|left| fn_next_borrow_muts.contains(left));""", 1))
+b("benign-try-send-ok", "`let _ = try_send(..)` spelled `.ok();`",
+  ("src/fn_ref.rs", "let _ = self.fn_done_tx.try_send(self.fn_id);", "self.fn_done_tx.try_send(self.fn_id).ok();", 1))
+b("benign-swap-add-node-order", "the two structure copies add their node in the other order",
+  (BLD, """            graph_structure.add_node(());
+            graph_structure_rev.add_node(());""", """            graph_structure_rev.add_node(());
+            graph_structure.add_node(());""", 1))
+b("benign-capacity-plus-one", "channel capacity node_count + 1",
+  (FG, """    let channel_capacity = std::cmp::max(1, graph_structure.node_count());
+    let (fn_ready_tx, fn_ready_rx) = mpsc::channel(channel_capacity);""", """    let channel_capacity = graph_structure.node_count() + 1;
+    let (fn_ready_tx, fn_ready_rx) = mpsc::channel(channel_capacity);""", 1))
+b("benign-rank-via-max", "rank relaxation keeps max() and re-queues only on a raise",
+  (RC, """                    if child_rank_maybe > child_rank_existing {
+                        ranks[child_fn_id.index()] = child_rank_maybe;
+
+                        fn_ids.push_back(child_fn_id);
+                    }""", """                    let child_rank_new = std::cmp::max(child_rank_existing, child_rank_maybe);
+                    if child_rank_new > child_rank_existing {
+                        ranks[child_fn_id.index()] = child_rank_new;
+                        fn_ids.push_back(child_fn_id);
+                    }""", 1))
+b("benign-inline-done-send-locked", "fn_done_send_locked inlined at one call site",
+  (FG, """                        fn_for_each(r#fn).await;
+                        fn_done_send_locked(fn_done_tx, fn_id).await;
+                        fns_remaining_decrement(fns_remaining, fn_done_tx).await;
+                    }
+
+                    #[cfg(feature = "interruptible")]
+                    fn_done_tx_drop_if_interrupted(fn_done_tx, interrupted).await;
+                },
+            )
+            .await;
+
+            let stream_outcome_state =""", """                        fn_for_each(r#fn).await;
+                        if let Some(tx) = fn_done_tx.read().await.as_ref() {
+                            fn_done_send(tx, fn_id).await;
+                        }
+                        fns_remaining_decrement(fns_remaining, fn_done_tx).await;
+                    }
+
+                    #[cfg(feature = "interruptible")]
+                    fn_done_tx_drop_if_interrupted(fn_done_tx, interrupted).await;
+                },
+            )
+            .await;
+
+            let stream_outcome_state =""", 1))
+b("benign-iter-insertion-via-raw-nodes", "GraphInfo / eq keep using iter_insertion; toposort helper reused by iter",
+  (FG, """        Topo::new(&self.graph_structure)
+            .iter(&self.graph_structure)
+            .map(|fn_id| &self.graph[fn_id])
+    }
+
+    /// Returns an iterator of function references in reverse topological order.""", """        self.toposort()
+            .iter(&self.graph_structure)
+            .map(|fn_id| &self.graph[fn_id])
+    }
+
+    /// Returns an iterator of function references in reverse topological order.""", 1))
+
+
 def apply(edits, dst):
     for (f, old, new, cnt) in edits:
         p = os.path.join(dst, f)
